@@ -94,7 +94,7 @@ def spec_of(cfg):
     return family.with_scheduler(spec, cfg.get("scheduler", "eager"))
 
 
-EAGER_ONLY = {"schedule_before_conflicting"}
+EAGER_ONLY = {"schedule_before_conflicting"}  # (ready-dependent relations inside one component are excluded for rr by construction)
 
 
 class Skip(Exception):
